@@ -15,7 +15,13 @@ REPO = os.environ.get("VERIF_REPO", "/repo")
 COQ = os.path.join(VERIF, "coq")
 CACHE = os.path.join(VERIF, ".cache")
 WORK = os.path.join(VERIF, "work")
-TARGET = os.path.join(CACHE, "target")
+# VERIF_REPO=<dir> runs every check against another checkout (used to try seeded changes in a scratch worktree
+# without touching /repo): the harness is copied with its /repo paths rewritten, builds go to separate target
+# directories, and evidence/replays are written under work/alt/ instead of evidence/ and replays/.
+ALT = None if os.path.realpath(REPO) == "/repo" else hashlib.sha256(os.path.realpath(REPO).encode()).hexdigest()[:10]
+ALTDIR = os.path.join(CACHE, "alt", ALT) if ALT else None
+TARGET = os.path.join(ALTDIR, "target") if ALT else os.path.join(CACHE, "target")
+OUTDIR = os.path.join(WORK, "alt", ALT) if ALT else VERIF
 JOBS = 16
 
 ENV = dict(os.environ)
@@ -206,10 +212,29 @@ def kernel_judge(name, cases, timeout=600, shard=150):
 # ----------------------------------------------------------------------------------------------
 # Rust side
 
+def harness_dir():
+    src = os.path.join(VERIF, "harness")
+    if not ALT:
+        return src
+    dst = os.path.join(ALTDIR, "harness")
+    subprocess.run(["rm", "-rf", dst], check=True)
+    os.makedirs(ALTDIR, exist_ok=True)
+    subprocess.run(["cp", "-r", src, dst], check=True)
+    root = os.path.realpath(REPO)
+    for d, _, files in os.walk(dst):
+        for f in files:
+            if f.endswith((".rs", ".toml")):
+                path = os.path.join(d, f)
+                txt = open(path).read()
+                if '"/repo/' in txt:
+                    open(path, "w").write(txt.replace('"/repo/', '"%s/' % root))
+    return dst
+
+
 def build_harness(timeout=1500):
-    with Lock("cargo"):
+    with Lock("cargo" + (ALT or "")):
         rc, out = sh(["timeout", str(timeout), "cargo", "build", "--offline", "--bins"],
-                     cwd=os.path.join(VERIF, "harness"), timeout=timeout + 30)
+                     cwd=harness_dir(), timeout=timeout + 30)
     if rc != 0:
         return None, out
     return os.path.join(TARGET, "debug"), out
@@ -272,7 +297,7 @@ class Ctx:
         return self.tier == "thorough"
 
     def violation(self, replay, no_input=False):
-        d = os.path.join(VERIF, "replays", self.pid)
+        d = os.path.join(OUTDIR, "replays", self.pid)
         os.makedirs(d, exist_ok=True)
         body = json.dumps(replay, indent=1, sort_keys=True, ensure_ascii=False)
         name = hashlib.sha256(body.encode()).hexdigest()[:12] + ".json"
@@ -304,8 +329,8 @@ class Ctx:
             "violations": len(self.violations),
         }
         ev["coverage"]["known_findings_printed"] = self.known_lines
-        os.makedirs(os.path.join(VERIF, "evidence"), exist_ok=True)
-        with open(os.path.join(VERIF, "evidence", self.pid + ".json"), "w") as f:
+        os.makedirs(os.path.join(OUTDIR, "evidence"), exist_ok=True)
+        with open(os.path.join(OUTDIR, "evidence", self.pid + ".json"), "w") as f:
             json.dump(ev, f, indent=1, sort_keys=True, ensure_ascii=False)
             f.write("\n")
         return 1 if self.violations else 0
@@ -349,10 +374,10 @@ def coqchk(ctx):
 
 def build_server(timeout=1800):
     """lsp4spl built from /repo's working tree with the `verif` hook. Returns (exe, log)."""
-    tdir = os.path.join(CACHE, "target-lsp")
+    tdir = os.path.join(ALTDIR, "target-lsp") if ALT else os.path.join(CACHE, "target-lsp")
     env = dict(ENV)
     env["CARGO_TARGET_DIR"] = tdir
-    with Lock("cargo-lsp"):
+    with Lock("cargo-lsp" + (ALT or "")):
         rc, out = sh(["timeout", str(timeout), "cargo", "build", "--offline", "-p", "lsp4spl", "--features", "verif"],
                      cwd=REPO, env=env, timeout=timeout + 30)
     if rc != 0:
